@@ -743,6 +743,16 @@ func pick[T any](r *rec.Rand, xs []T) T { return rec.Pick(r, xs) }
 
 func randNumString(r *rec.Rand) string {
 	var sb strings.Builder
+	if r.Chance(1, 6) { // around the 64-bit rounding border of big.ParseFloat: ties, near-ties
+		base := pick(r, []uint64{1 << 62, 1<<63 - 2, 1<<63 - 1, 1<<62 + 1, 1<<61 + 3, 1 << 63, 1<<64 - 1, 1<<64 - 2})
+		base += uint64(r.Intn(5)) - 2
+		if r.Chance(1, 4) {
+			sb.WriteByte('-')
+		}
+		sb.WriteString(strconv.FormatUint(base, 10))
+		sb.WriteString(pick(r, []string{"", ".0", ".25", ".5", ".75", ".125", ".50000000000000000001", ".49999999999999999999", ".5e0", "e0", "0e-1", "5e-1"}))
+		return sb.String()
+	}
 	switch r.Intn(6) {
 	case 0:
 		sb.WriteByte('-')
@@ -778,7 +788,7 @@ func randNumString(r *rec.Rand) string {
 		sb.WriteString(strconv.Itoa(r.Intn(pick(r, []int{3, 30, 330}))))
 	}
 	if r.Chance(1, 25) {
-		sb.WriteString(pick(r, []string{" ", "x", "_", ".", "e"}))
+		sb.WriteString(pick(r, []string{" ", "x", "_", ".", "e", ".5", "..", "e1.5"}))
 	}
 	return sb.String()
 }
@@ -1399,6 +1409,25 @@ func main() {
 		}
 		return
 	}
+
+	// observation (not part of the property): Compile reports its error only on the first call
+	// (sync.Once); a second Evaluate on the same object dereferences the nil CEL environment
+	func() {
+		defer func() {
+			if recover() != nil {
+				w.Stat("obs_second_evaluate_after_compile_error_panics", 1)
+			}
+		}()
+		ec := condition.NewUncompiled(&openfgav1.Condition{Name: "bad", Expression: "1 +", Parameters: map[string]*openfgav1.ConditionParamTypeRef{}})
+		_, err1 := ec.Evaluate(context.Background(), map[string]*structpb.Value{})
+		if err1 != nil {
+			w.Stat("obs_first_evaluate_reports_compile_error", 1)
+		}
+		_, err2 := ec.Evaluate(context.Background(), map[string]*structpb.Value{})
+		if err2 != nil {
+			w.Stat("obs_second_evaluate_reports_error", 1)
+		}
+	}()
 
 	r := rec.NewRand(o.Seed)
 	for _, c := range fixedCases() {
